@@ -1127,10 +1127,66 @@ Lemma xargs_e_refuted :
 Proof. vm_compute. split; reflexivity. Qed.
 
 (* ================================================================== fd *)
+(* two exec clauses; and since the repair of C04-fd-appended-path every clause is judged with the path fd appends *)
 Lemma fd_formerly_refuted :
-  modelled (w ["fd"; "-x"; "ls"; ";"; "-x"; "rm"]) = Some (HWords [w ["ls"]; w ["rm"]] false) /\
-  wrapper_exec (w ["fd"; "-x"; "ls"; ";"; "-x"; "rm"]) = Some [w ["ls"]; w ["rm"]].
-Proof. vm_compute. split; reflexivity. Qed.
+  (modelled (w ["fd"; "-x"; "ls"; ";"; "-x"; "rm"]) = Some (HWords [w ["ls"; "{}"]; w ["rm"; "{}"]] false) /\
+   wrapper_exec (w ["fd"; "-x"; "ls"; ";"; "-x"; "rm"]) = Some [w ["ls"; "{}"]; w ["rm"; "{}"]]) /\
+  (* a bare launcher: the appended path makes the handler judge  env {}  - an unknown command - not  env *)
+  (modelled (w ["fd"; "-x"; "env"]) = Some (HWords [w ["env"; "{}"]] false) /\
+   wrapper_exec (w ["fd"; "-x"; "env"]) = Some [w ["env"; "{}"]]) /\
+  (* a placeholder inside a word: nothing is appended *)
+  (modelled (w ["fd"; "-X"; "mv"; "{}"; "{.}.bak"]) = Some (HWords [w ["mv"; "{}"; "{.}.bak"]] false) /\
+   wrapper_exec (w ["fd"; "-X"; "mv"; "{}"; "{.}.bak"]) = Some [w ["mv"; "{}"; "{.}.bak"]]).
+Proof. vm_compute. repeat split; reflexivity. Qed.
+
+(* the handler's placeholder table (generated from cli/fd.py) is the one of fd --help *)
+Lemma fd_placeholders_tie : FD_PLACEHOLDERS = FD_PLACEHOLDERS_SPEC.
+Proof. reflexivity. Qed.
+Lemma fd_with_path_spec c : fd_with_path c = fd_path c.
+Proof. unfold fd_with_path, fd_has_placeholder, fd_path. rewrite fd_placeholders_tie. reflexivity. Qed.
+Lemma fd_with_path_appends c : fd_has_placeholder c = false -> fd_with_path c = c ++ [PLACEHOLDER].
+Proof. intro H. unfold fd_with_path. rewrite H. reflexivity. Qed.
+Lemma fd_with_path_keeps c : exists t, fd_with_path c = c ++ t.
+Proof. unfold fd_with_path. destruct (fd_has_placeholder c); [exists []; symmetry; apply app_nil_r | eexists; reflexivity]. Qed.
+
+Definition no_semi (c : list str) : bool := forallb (fun t => negb (is_semi t)) c.
+Lemma fd_cut_nosemi c : no_semi c = true -> fd_cut c = (c, None).
+Proof.
+  induction c as [|t r IH]; [reflexivity|]. unfold no_semi. cbn [forallb]. intro H.
+  apply andb_prop in H. destruct H as [Ht Hr]. cbn [fd_cut].
+  destruct (is_semi t); [discriminate|]. rewrite (IH Hr). reflexivity.
+Qed.
+Lemma fd_until_semi_nosemi c : no_semi c = true -> fd_until_semi c = (c, []).
+Proof.
+  induction c as [|t r IH]; [reflexivity|]. unfold no_semi. cbn [forallb]. intro H.
+  apply andb_prop in H. destruct H as [Ht Hr]. cbn [fd_until_semi].
+  assert (E : str_eqb t (WrapSpec.S ";") = false).
+  { unfold is_semi, is in Ht. apply negb_true_iff in Ht. apply orb_false_iff in Ht. exact (proj1 Ht). }
+  rewrite E, (IH Hr). reflexivity.
+Qed.
+(* fd [-x | --exec | -X | --exec-batch] COMMAND ARG...  for every command with no lone ; or \; among its words: the handler
+   delegates exactly the command fd runs, the appended path included *)
+Lemma fd_extract flag c0 cs :
+  In flag (map s2l ["-x"; "--exec"; "-X"; "--exec-batch"]) -> no_semi (c0 :: cs) = true ->
+  fd_h (s2l "fd" :: flag :: c0 :: cs) = HWords [fd_with_path (c0 :: cs)] false /\
+  fd_exec (flag :: c0 :: cs) = Some [fd_path (c0 :: cs)].
+Proof.
+  intros Hf Hs.
+  assert (Hm : mem_str flag FD_EXEC_FLAGS = true).
+  { cbn [In map] in Hf. destruct Hf as [<-|[<-|[<-|[<-|[]]]]]; reflexivity. }
+  split.
+  - unfold fd_h. cbn [length fd_scan_f]. rewrite Hm. rewrite (fd_cut_nosemi _ Hs). reflexivity.
+  - unfold fd_exec. cbn [length].
+    cbn [In map] in Hf. destruct Hf as [<-|[<-|[<-|[<-|[]]]]];
+      (cbn [fd_run]; match goal with |- context [word_kind ?x] => let k := eval vm_compute in (word_kind x) in change (word_kind x) with k end;
+       cbv iota beta;
+       try (match goal with |- context [split_eq ?x] => let k := eval vm_compute in (split_eq x) in change (split_eq x) with k end);
+       try (match goal with |- context [fd_cluster ?x] => let k := eval vm_compute in (fd_cluster x) in change (fd_cluster x) with k end);
+       cbv iota beta;
+       repeat match goal with |- context [str_eqb ?a ?b] => let k := eval vm_compute in (str_eqb a b) in change (str_eqb a b) with k end;
+       cbv iota beta; cbn [orb app];
+       rewrite (fd_until_semi_nosemi _ Hs); reflexivity).
+Qed.
 
 (* ================================================================== suffix invariants: the inner command a handler
    delegates is a suffix of the command line - never invented, reordered or re-assembled *)
